@@ -142,7 +142,7 @@ def parseView : Nat → List String → Option (Option View × List String)
         let (ls, r) ← parseLists n r
         pure (some (.forKeyed sel ls), r)
       | [] => none
-    else if t == "forr" then do
+    else if t == "forr" || t == "fore" then do
       let (sel, r) ← parseExpr (f + 1) rest
       match r with
       | n :: r =>
@@ -150,7 +150,7 @@ def parseView : Nat → List String → Option (Option View × List String)
         if n == 0 || n > 16 then none else
         let (ls, r) ← parseLists n r
         let (row, r) ← parseView f r
-        pure (row.map (View.forRows sel ls), r)
+        pure (row.map (View.forRows (t == "fore") sel ls), r)
       | [] => none
     else if t == "sc" then
       match rest with
@@ -165,6 +165,13 @@ def parseView : Nat → List String → Option (Option View × List String)
         let (k, r) ← parseView f r
         pure (k.map (View.scope sid (.sig v)), r)
       | _ => none
+    else if t == "eb" then do
+      let (k, r) ← parseView f rest
+      pure (k.map View.eb, r)
+    else if t == "res" then do
+      let (c, r) ← parseExpr (f + 1) rest
+      let (x, r) ← parseExpr (f + 1) r
+      pure (some (.res c x), r)
     else if t == "susp" then do
       let (_, r) ← parseExpr (f + 1) rest
       let (_, r) ← parseView f r
@@ -247,15 +254,28 @@ def showState (m : IdMap) : RState → List String × IdMap
   | .show _ _ _ _ _ _ inner => showState m inner
   | .forK _ _ _ ks texts => showRows m ks texts ks.w.kids
   | .scope _ _ _ inner => showState m inner
-  | .rows _ _ _ _ ks items =>
+  | .rows _ _ _ _ _ ks items =>
     let (rs, m) := showState m items
     let (c, m) := canon m ks.marker
     (rs ++ [s!"C{c}.0:-"], m)
-  | .rowCons _ r rest =>
+  | .rowCons _ _ r rest =>
     let (a, m) := showState m r
     let (b, m) := showState m rest
     (a ++ b, m)
   | .rowNil => ([], m)
+  | .errb _ _ _ fb kid =>
+    match fb with
+    | some n =>
+      let (t, m) := showN m n
+      ([s!"T{t}:{hexStr "error"}"], m)
+    | none => showState m kid
+  | .res _ _ _ n last _ =>
+    let (t, m) := showN m n
+    match last with
+    | some v => ([s!"T{t}:{hexStr (toString v)}"], m)
+    | none => ([s!"C{t}:-"], m)
+  | .hooked _ inner => showState m inner
+  | .errTok _ => ([], m)
 
 def showDom (m : IdMap) (st : St) : String × IdMap :=
   let (t, m) := showN m st.rootN
@@ -310,7 +330,9 @@ def structGuards (o : Orc) : View → List Guard
   | .forKeyed sel _ => [.reads (o.reads sel)]
   -- views with component-local state: the untouched-nodes oracle is not applied (`snapState` = none)
   | .scope _ _ _ => []
-  | .forRows _ _ _ => []
+  | .forRows _ _ _ _ => []
+  | .eb _ => []
+  | .res _ _ => []
 
 def attrGuards (o : Orc) : List Attr → List Guard
   | [] => []
@@ -360,9 +382,16 @@ def curNodes : RState → List (Nat × Nat)
       if li == ks.marker then [(li, 0)]
       else [(li, 1), (((texts.find? (·.1 == li)).map (·.2)).getD 0, 0)]
   | .scope _ _ _ inner => curNodes inner
-  | .rows _ _ _ _ ks items => curNodes items ++ [(ks.marker, 0)]
-  | .rowCons _ r rest => curNodes r ++ curNodes rest
+  | .rows _ _ _ _ _ ks items => curNodes items ++ [(ks.marker, 0)]
+  | .rowCons _ _ r rest => curNodes r ++ curNodes rest
   | .rowNil => []
+  | .errb _ _ _ fb kid =>
+    match fb with
+    | some n => [(n.id, n.muts)]
+    | none => curNodes kid
+  | .res _ _ _ n _ _ => [(n.id, n.muts)]
+  | .hooked _ inner => curNodes inner
+  | .errTok _ => []
 
 /-! known-finding classes (decidable predicates on the program) -/
 
@@ -399,7 +428,9 @@ def viewExprs : View → List Expr
   | .show c a b => c :: (viewExprs a ++ viewExprs b)
   | .forKeyed sel _ => [sel]
   | .scope _ _ kid => viewExprs kid
-  | .forRows sel _ row => sel :: viewExprs row
+  | .forRows _ sel _ row => sel :: viewExprs row
+  | .eb kid => viewExprs kid
+  | .res c x => [c, x]
 
 /-- the view uses component-local state or rows with content of their own -/
 def isX : View → Bool
@@ -409,7 +440,9 @@ def isX : View → Bool
   | .either _ a b => isX a || isX b
   | .show _ a b => isX a || isX b
   | .scope _ _ _ => true
-  | .forRows _ _ _ => true
+  | .forRows _ _ _ _ => true
+  | .eb _ => true
+  | .res _ _ => true
 
 def hasFor : View → Bool
   | .text _ | .unit | .dynText _ => false
@@ -419,7 +452,9 @@ def hasFor : View → Bool
   | .show _ a b => hasFor a || hasFor b
   | .forKeyed _ _ => true
   | .scope _ _ kid => hasFor kid
-  | .forRows _ _ _ => false
+  | .forRows _ _ _ _ => false
+  | .eb kid => hasFor kid
+  | .res _ _ => false
 
 def sortNat (l : List Nat) : List Nat :=
   l.foldl (fun acc x => (acc.filter (· < x)) ++ [x] ++ acc.filter (fun y => !(y < x))) []
